@@ -47,7 +47,7 @@ def run(tier, seed, replay=None):
     for _ in range(nsym):
         lines = G.random_program(r)
         # make sure there are procedures
-        k = r.below(4)
+        k = r.below(4) if not r.chance(1, 25) else r.choice([255, 256, 257, 320])   # also symbol tables beyond 8-bit indices
         for i in range(k):
             pos = r.below(len(lines) + 1)
             # names of every length: the trace label is "<name>+<offset>" whatever its width
